@@ -10,6 +10,7 @@ import (
 	"os"
 	"path/filepath"
 	"strings"
+	"sync"
 	"time"
 
 	"github.com/bmeg/grip/config"
@@ -51,6 +52,10 @@ type GripServer struct {
 	sources  map[string]gripper.GRIPSourceClient
 	baseDir  string
 	jStorage jobstorage.JobStorage
+	//stateLock guards dbs, graphMap and schemas, which every request handler uses
+	stateLock sync.RWMutex
+	//updateLock lets one graph map update run at a time
+	updateLock sync.Mutex
 }
 
 // NewGripServer initializes a GRPC server to connect to the graph store
@@ -141,6 +146,8 @@ func StartDriver(d config.DriverConfig, sources map[string]gripper.GRIPSourceCli
 }
 
 func (server *GripServer) getGraphDB(graph string) (gdbi.GraphDB, error) {
+	server.stateLock.RLock()
+	defer server.stateLock.RUnlock()
 	if driverName, ok := server.graphMap[graph]; ok {
 		if gdb, ok := server.dbs[driverName]; ok {
 			return gdb, nil
